@@ -41,7 +41,8 @@ def generate(rng, tier, index):
     pre = [select.gen_selection(rng, im["lines"], im["pixels"])
            for _ in range(rng.choice([0, 1, 2, 3]))]
     plan = {"world": wp, "rpcs": rpcs, "cached": rng.random() < 0.4, "pre_image": k,
-            "pre_reads": pre}
+            "pre_reads": pre,
+            "concurrent_opens": rng.randrange(1, 2**31) if rng.random() < 0.35 else None}
     if rng.random() < 0.15:
         # a companion product of the OTHER record type whose line records have exactly the same
         # length (544 + 8 p = 192 + 2 q), opened and loaded in the same interpreter first with
@@ -204,6 +205,52 @@ def execute(plan):
                     violations.append(Violation(ID, "preferred-chunksize", common.rpc_relation(n, r),
                                                 {"rpc": r, "lines": n, "advertised": pc,
                                                  "want_rows": want}))
+        # ---- the same opens once more, all at the same time (one thread each, seeded schedule):
+        # what an open returns must not depend on another open being under way
+        # (not on memory://: fsspec hands out ONE file object per path there, so that two opens of
+        # the same file at the same time disturb each other whatever the library does)
+        if plan.get("concurrent_opens") and len(trees) >= 2 and not violations \
+                and w.backend != "memory":
+            picked = []
+            for r_c, t_c in trees:
+                if r_c not in [x[0] for x in picked]:
+                    picked.append((r_c, t_c))
+            picked = picked[:3]
+            for k_s in range(3):
+                calls = {"O%d" % i_c: (lambda r_c=r_c: w.open(use_cache=False, records_per_chunk=r_c))
+                         for i_c, (r_c, _) in enumerate(picked)}
+                res, errs, sch = common.concurrent_calls(calls, plan["concurrent_opens"] + k_s)
+                stats["concurrent-open-schedules"] = stats.get("concurrent-open-schedules", 0) + 1
+                bad = None
+                if sch.deadlock or sch.budget:
+                    bad = Violation(ID, "concurrent-opens-hang", "deadlock" if sch.deadlock else "budget",
+                                    {"rpcs": [x[0] for x in picked]})
+                for i_c, (r_c, t_c) in enumerate(picked):
+                    if bad:
+                        break
+                    nm = "O%d" % i_c
+                    if nm in errs:
+                        bad = Violation(ID, "open-raised", "concurrent:" + type(errs[nm]).__name__, {
+                            "rpc": r_c, "error": exc_text(errs[nm])})
+                        break
+                    t_new = res.get(nm)
+                    for img in prod.images:
+                        n_i = prod.truth[img].shape[0]
+                        got = t_new["imagery"][prod.groups[img]]["data"].encoding.get(
+                            "preferred_chunksizes", {}).get("rows")
+                        if got != min(r_c, n_i):
+                            bad = Violation(ID, "preferred-chunksize", "concurrent-opens", {
+                                "rpc": r_c, "lines": n_i, "advertised": got,
+                                "other_rpcs": [x[0] for x in picked if x[0] != r_c]})
+                            break
+                    if bad is None:
+                        diffs = tree_diff(t_c, t_new)
+                        if diffs:
+                            bad = Violation(ID, "trees-differ", "concurrent-opens", {
+                                "rpc": r_c, "diffs": diffs[:4]})
+                if bad:
+                    violations.append(bad)
+                    break
         return common.outcome(SIM, violations, keys, stats)
     finally:
         w.destroy()
